@@ -280,10 +280,11 @@ Theorem C14_grammar_pass_consumed_if_stack_harmless :
   (length pass <= pidx pass (parse_pass pass wsnl toks attr))%nat.
 Proof. exact parse_pass_consumed_harmless. Qed.
 
-(* UNBOUNDED, on the grammar model: for every program of the fragment the Eof token is alone in the last logical line, of type Eof *)
+(* UNBOUNDED, on the grammar model: for every well-formed program of the fragment (wf: the then-branch of an if/else is closed) the Eof token is alone in the last logical line, of type Eof *)
 From PasfmtVerif Require Import Model.Fragment Proofs.FragmentProofs.
 Theorem C14_fragment_single_eof_line :
   forall ss : stmts,
+  wf ss = true ->
   let r := parse_file_model (render_prog ss) [] in
   exists pre : list lline,
     r_lines r =
@@ -302,7 +303,7 @@ Proof. exact fragment_single_eof_line. Qed.
 (* UNBOUNDED, on the grammar model: for every program of the (extended) fragment parents precede their children *)
 From PasfmtVerif Require Import Model.Fragment Proofs.FragmentProofs.
 Theorem C14_fragment_parents_precede_children :
-  forall ss : stmts, parents_ok (r_lines (parse_file_model (render_prog ss) [])) = true.
+  forall ss : stmts, wf ss = true -> parents_ok (r_lines (parse_file_model (render_prog ss) [])) = true.
 Proof. exact fragment_parents_ok. Qed.
 
 
